@@ -61,7 +61,9 @@ theorem calculatePower2_eq {F p eb} (lay : Layout F p eb) {base lg : Nat} (hb : 
     have h1 : 2 ^ (eb - 1) ≤ 2 ^ 15 := Nat.pow_le_pow_right (by decide) (by have := lay.heb16; omega)
     have := lay.hp64
     omega
-  unfold calculatePower2 satMulI64 wrapI64 wrapI litPower2Limit
+  have hlim : litPower2Limit = 1073741823 := by decide
+  unfold calculatePower2 satMulI64 wrapI64 wrapI
+  rw [hlim]
   rw [hlog]
   generalize F.C.exponentBias = B at *
   generalize 2 ^ (eb - 1) - 1 + (p - 1) = Bn at *
